@@ -256,7 +256,7 @@ fn prelude() -> Vec<Item> {
     ]
 }
 
-/// layout 0: one file; layout 1: the prelude lives in an included file.
+/// layout 0: one file; 1: the prelude lives in an included file; 2 / 3: as 0 / 1 with a forward declaration of the class.
 pub fn scope_program(path: &[Ctor], wrapper: usize, layout: usize) -> Program {
     let mut g = Gen { next: 0, wrapper, probes: 0 };
     let mut items = Vec::new();
@@ -264,10 +264,22 @@ pub fn scope_program(path: &[Ctor], wrapper: usize, layout: usize) -> Program {
     // field access through a def and through a class value; global values after their declaration
     items.push(Item::Defvar { name: g.fresh(), value: E::Field(Box::new(id("x")), "f".into()) });
     items.push(Item::Defvar { name: g.fresh(), value: E::Field(Box::new(E::ClassVal("Base".into(), vec![int(1)], vec![])), "g".into()) });
+    let forward = || Item::Class { doc: vec![], blank: false, name: "Base".into(), targs: vec![], parents: vec![], body: None };
     if layout == 0 {
         let mut all = prelude();
         all.extend(items);
         Program { files: vec![("a.td".into(), all)] }
+    } else if layout == 2 {
+        // the class is forward declared before its definition
+        let mut all = vec![forward()];
+        all.extend(prelude());
+        all.extend(items);
+        Program { files: vec![("a.td".into(), all)] }
+    } else if layout == 3 {
+        // forward declared in the root, defined in the included file
+        let mut root = vec![forward(), Item::Include("inc.td".into())];
+        root.extend(items);
+        Program { files: vec![("a.td".into(), root), ("inc.td".into(), prelude())] }
     } else {
         let mut root = vec![Item::Include("inc.td".into())];
         root.extend(items);
